@@ -397,6 +397,17 @@ def gen_cases(rng, tier):
             g, doc, ids = direct_doc(objs, mx)
             revs = gen_revs(rng, reals, g, ids, mx, fmt, 1)
             cases.append((g.finish(L('inc', fmt, doc, L('sops'), *revs)), {'kind': 'size-%s-%s' % (name, fmt), 'nontrivial': True}))
+    # stale bookkeeping keys in the trailer of a document whose numbers form ONE run from 1 (a document loaded from a file in the
+    # other format, or saved before): every key the writer owns must be overwritten or removed, also the ones whose default would do
+    # (Index [0 Size]).  Randomly this meets "stream format + contiguous numbers + stale Index" once or twice per quick run only.
+    for nobj in (1, 2, 5, 9):
+        for stale in ([(b'Index', A([I(0), I(3)]))], [(b'Index', A([I(0), I(8), I(9), I(2)])), (b'Size', I(50))],
+                      [(b'W', A([I(1), I(2), I(1)])), (b'Length', I(7)), (b'Type', N(b'Foo')), (b'Filter', N(b'FlateDecode')), (b'Index', A([I(1), I(1)]))]):
+            for fmt in ('table', 'stream'):
+                objs = [((k, 0), D([(b'K', I(k))]) if k > 1 else D([(b'Type', N(b'Catalog'))])) for k in range(1, nobj + 1)]
+                g, doc, ids = direct_doc(objs, nobj, trailer=[(b'Root', REF(1, 0))] + stale)
+                revs = gen_revs(rng, reals, g, ids, nobj, fmt, 1)
+                cases.append((g.finish(L('inc', fmt, doc, L('sops'), *revs)), {'kind': 'stale-bookkeeping-%s' % fmt, 'nontrivial': True}))
     _MEMO[tier] = cases
     return cases
 
